@@ -152,6 +152,14 @@ pub struct Case {
   pub rt: Rt,
   pub n_peers: u8,
   pub steps: Vec<Step>,
+  /// frames are handed to send_multipart() with no MORE flag set at all (the plain way to call
+  /// it); otherwise the harness sets MORE on all but the last itself
+  #[serde(default)]
+  pub plain_frames: bool,
+  /// ROUTER receiver only: the DEALER peers run with AUTO_DELIMITER off and put the empty
+  /// delimiter in front of their frames themselves
+  #[serde(default)]
+  pub manual_dealers: bool,
 }
 
 fn sizes_strategy() -> impl Strategy<Value = Vec<u16>> + Clone {
@@ -176,8 +184,9 @@ fn case_strategy() -> impl Strategy<Value = Case> + Clone {
     prop::sample::select(vec![Rt::Current, Rt::Multi(2)]),
     1u8..4,
     prop::collection::vec(step, 4..30),
+    (any::<bool>(), prop::bool::weighted(0.35)),
   )
-    .prop_map(|(kind, transport, rt, n_peers, steps)| Case { kind, transport, rt, n_peers, steps })
+    .prop_map(|(kind, transport, rt, n_peers, steps, (plain_frames, manual))| Case { kind, transport, rt, n_peers, steps, plain_frames, manual_dealers: manual && kind == RecvKind::Router })
 }
 
 fn types(k: RecvKind) -> (&'static str, &'static str) {
@@ -196,9 +205,12 @@ struct Peer {
   alive: bool,
 }
 
-async fn connect_peer(ctx: &rzmq::Context, ty: &str, ep: &str, id: u16, tr: Transport) -> Result<Peer, String> {
+async fn connect_peer(ctx: &rzmq::Context, ty: &str, ep: &str, id: u16, tr: Transport, manual: bool) -> Result<Peer, String> {
   let s = ctx.socket(stack::stype(ty)).map_err(|e| e.to_string())?;
   stack::set_opts(&s, &[stack::i32opt(opt::SNDTIMEO, 3000), stack::i32opt(opt::LINGER, 500)]).await?;
+  if manual {
+    s.set_option_raw(opt::AUTO_DELIMITER, &0i32.to_ne_bytes()).await.map_err(|e| e.to_string())?;
+  }
   let mon = s.monitor_default().await.map_err(|e| e.to_string())?;
   s.connect(ep).await.map_err(|e| e.to_string())?;
   if tr == Transport::Inproc {
@@ -239,7 +251,7 @@ async fn body(c: &Case) -> L2 {
   }
   let mut peers: Vec<Peer> = Vec::new();
   for i in 0..c.n_peers {
-    match connect_peer(&ctx, stype, &ep, i as u16 + 1, c.transport).await {
+    match connect_peer(&ctx, stype, &ep, i as u16 + 1, c.transport, c.manual_dealers).await {
       Ok(p) => peers.push(p),
       Err(e) => return L2::Inconclusive(e),
     }
@@ -271,12 +283,22 @@ async fn body(c: &Case) -> L2 {
           .enumerate()
           .map(|(i, sz)| {
             let mut m = Msg::from_vec(acc_frame(p.id, seq, i as u16, n as u16, *sz as usize + stack::ACC_OVERHEAD));
-            if i + 1 < n || (*premore && n > 1) {
+            if (!c.plain_frames && i + 1 < n) || (*premore && n > 1) {
               m.set_flags(MsgFlags::MORE);
             }
             m
           })
           .collect();
+        let frames = if c.manual_dealers {
+          // manual framing: the application supplies the delimiter
+          let mut d = Msg::new();
+          if !c.plain_frames {
+            d.set_flags(MsgFlags::MORE);
+          }
+          std::iter::once(d).chain(frames).collect::<Vec<Msg>>()
+        } else {
+          frames
+        };
         match p.sock.send_multipart(frames).await {
           Ok(()) => sent.push((p.id, seq, n)),
           Err(e) => return L2::Inconclusive(format!("send failed: {}", e)),
@@ -322,7 +344,7 @@ async fn body(c: &Case) -> L2 {
       }
       Step::Attach => {
         if peers.len() < 6 {
-          match connect_peer(&ctx, stype, &ep, next_id, c.transport).await {
+          match connect_peer(&ctx, stype, &ep, next_id, c.transport, c.manual_dealers).await {
             Ok(p) => peers.push(p),
             Err(e) => return L2::Inconclusive(e),
           }
@@ -465,7 +487,7 @@ async fn big_body(c: &BigCase) -> L2 {
   if rtype == "SUB" {
     let _ = receiver.set_option_raw(opt::SUBSCRIBE, b"").await;
   }
-  let p = match connect_peer(&ctx, &c.sender, &ep, 1, c.transport).await {
+  let p = match connect_peer(&ctx, &c.sender, &ep, 1, c.transport, false).await {
     Ok(p) => p,
     Err(e) => return L2::Inconclusive(e),
   };
@@ -540,6 +562,8 @@ pub fn run(run: &mut Run) {
     rec.nontrivial = big && ((has_frames && has_multi) || has_detach);
     rec.label(types(c.kind).0);
     rec.label(c.transport.name());
+    rec.label_if(c.plain_frames, "frames_without_preset_more");
+    rec.label_if(c.manual_dealers, "manual_framing_dealer_peers");
     rec.label_if(has_frames && has_multi, "mixed_read_style");
     rec.label_if(has_detach, "detach_event");
     let r = run_l2(c.rt, Duration::from_secs(90), body(c));
